@@ -104,15 +104,15 @@ TrPhDirect ==
 
 TrPhFirst ==
     /\ IsEvent("First") /\ Tr.kind = "ph"
-    /\ Ev.req = pN
+    /\ Ev.req >= 1
     /\ Ev.wle1                                           \* max weight of the batch <= 1
-    /\ PhFirst(Ev.acc)
+    /\ PhFirstReq(Ev.req, Ev.acc)
     /\ Step
 
-\* the size of a refill request is an efficiency heuristic: bound, not compared with Req
+\* the size of a request is an efficiency heuristic: bound from the log, not compared with Req / PhCap
 TrPhRefill ==
     /\ IsEvent("Refill") /\ Tr.kind = "ph"
-    /\ Ev.req >= 1 /\ Ev.req <= PhCap
+    /\ Ev.req >= 1
     /\ Ev.wle1
     /\ PhRefillReq(Ev.req, Ev.acc)
     /\ Step
